@@ -208,6 +208,9 @@ theorem singlePre_spec {mk : ℝ → ℝ → ℝ → ℝ} {cfg : LensCfg ℝ} {h
     ∃ lam κ x gpl,
       LamOK mk cfg.dist hy.lens lam ∧ KappaOK mk cfg.los hy.los ext.losDraw κ ∧
       out.lam = lam ∧ out.kappa = κ ∧ out.prior = priorLogL cfg.priors out.kwargsParam ∧
+      (∃ ld kd sA sA' sB sB', drawLens mk cfg.dist hy.lens hy.gammaPlList fuel sA = .ok (ld, sA') ∧
+        drawAniso mk cfg.aniso hy.kin fuel sB = .ok (kd, sB') ∧ out.kwargsParam = mergeDict ld kd ∧
+        gpl = getD ld "gamma_pl" 2.0 ∧ lam = getD ld "lambda_mst" 1.0) ∧
       out.vals =
         (let mag := mk (getD hy.source "mu_sne" 1.0) (getD hy.source "sigma_sne" 0.0) x + dLum
          let dp := displace ddt dd (getD hy.lens "gamma_ppn" 1.0) lam κ mag
@@ -234,13 +237,14 @@ theorem singlePre_spec {mk : ℝ → ℝ → ℝ → ℝ} {cfg : LensCfg ℝ} {h
         obtain ⟨x, hx⟩ := normal_ok hm
         split at h
         · simp at h
-        · rename_i kd s4 _
+        · rename_i kd s4 hkd
           by_cases hany : (cfg.kinParams.any fun p => !(Dict.has (mergeDict ld kd) p)) = true
           · rw [if_pos hany] at h; simp at h
           · rw [if_neg hany] at h
             simp only [Except.ok.injEq, Prod.mk.injEq] at h
             obtain ⟨rfl, _⟩ := h
-            refine ⟨lam, κ, x, getD ld "gamma_pl" 2.0, hlam, hkappa, hl1, rfl, rfl, ?_⟩
+            refine ⟨lam, κ, x, getD ld "gamma_pl" 2.0, hlam, hkappa, hl1, rfl, rfl,
+              ⟨ld, kd, _, _, _, _, hld, hkd, rfl, rfl, hl1.symm⟩, ?_⟩
             simp only [hl1, hl2, hx]
 
 end HierArc.Lens
